@@ -69,6 +69,10 @@ CHECKS = {
          "Differential: one database is served by server::run on a loopback port; generated histories of /insert_bin posts and queries through /query, /query_cols and /multi_query_cols (JSON; binary with and without xor float compression and a mantissa), including failing queries, are compared request by request with run_query on the same handle: same names in order, same values (exact i64/f64 after parsing JSON with round-trip float parsing; non-finite floats are null in JSON; NULL floats are the reserved NaN in binary), failing queries give a 4xx/5xx status and the server keeps answering.",
          "DESIGN.md 4 C17", "One server per shard process with per-case table names (actix does not release a stopped server's worker threads promptly); only the data endpoints are exercised; binary responses carry columns in a map, so only the name set is compared there.",
          "property-based testing (proptest), differential oracle (HTTP vs embedded API)"),
+ "C09": ("fault_enumeration",
+         "Generated workloads (ingest into 1-2 tables, force_flush with and without compaction, restart) are run once while hook H1 records every primitive file-system effect; then EVERY prefix of that effect sequence, plus torn temp files (1, half, all-but-one bytes), is materialised as a directory and opened: opening must terminate without panic and the content (tables, columns, rows, catalogue) must equal the acknowledged prefix or that plus the one in-flight ingestion taken whole; the recovered database is flushed and reopened (same content) and every prefix of the recovery's own effects is materialised and recovered again (idempotence).",
+         "DESIGN.md 4 C09", "Crash model = prefix of the recorded effect sequence (no reordering of un-synced writes, no lost rename); generation picks the workload, enumeration covers all of its crash points.",
+         "property-based workload generation (proptest) + exhaustive crash-point enumeration via a file-system effect hook; model oracle"),
 }
 
 NOT_YET = {
